@@ -25,9 +25,15 @@ const EV_HANDLER: u8 = 31;
 const EV_OP: u8 = 32;
 
 pub const N_ERR_KINDS: u32 = 18;
+/// outcomes a link may give to a *send*: the 18 error values above and, as a nineteenth,
+/// `NoPacketReceived` (a meaningless answer to a send, but an error value all the same)
+pub const N_SEND_ERR_KINDS: u32 = 19;
 
 pub fn make_iface_err(k: u32) -> InterfaceError {
     use std::io::{Error, ErrorKind};
+    if k == 18 {
+        return InterfaceError::NoPacketReceived;
+    }
     match k % N_ERR_KINDS {
         0 => InterfaceError::CanError(CanError::BufferOverrun),
         1 => InterfaceError::CanError(CanError::MailboxFull),
@@ -115,13 +121,13 @@ impl Interface for ScriptLink {
             Some(f) => f,
             None => {
                 if self.sim.chance(pct) {
-                    Some(self.sim.draw(N_ERR_KINDS))
+                    Some(self.sim.draw(N_SEND_ERR_KINDS))
                 } else {
                     None
                 }
             }
         };
-        self.sim.event(EV_LINK, 4, hash_packet(packet) ^ err.map(|e| e as u64 + 1).unwrap_or(0), || {
+        self.sim.event_unordered(EV_LINK, 4, hash_packet(packet) ^ err.map(|e| e as u64 + 1).unwrap_or(0), || {
             format!(
                 "{}.link.try_send_packet({}) -> {}",
                 self.name,
@@ -159,6 +165,40 @@ struct MHandler {
     token: u32,
     capture_all: bool,
     beh: Beh,
+    /// registered as a non-capturing function item (a zero-sized closure: every such box
+    /// has the same dangling address) instead of a closure that captures its state
+    zst: Option<usize>,
+}
+
+pub const ZST_TOKEN_BASE: u32 = 9000;
+
+thread_local! {
+    /// context of the zero-sized handlers of the main node (they cannot capture anything)
+    static ZCTX: RefCell<Option<(Sim, Rc<RefCell<HLog>>)>> = RefCell::new(None);
+}
+
+fn zst_fire(slot: u32, p: &Packet) {
+    let _g = crate::alloc::SimDomain::enter();
+    ZCTX.with(|c| {
+        if let Some((sim, hlog)) = c.borrow().as_ref() {
+            let token = ZST_TOKEN_BASE + slot;
+            sim.event_unordered(EV_HANDLER, token as u64, hash_packet(p), || format!("n.handler#{} (zero-sized) called with {}", token, show_packet(p)));
+            let seq = sim.steps();
+            hlog.borrow_mut().fired.push((token, p.clone(), seq));
+        }
+    });
+}
+fn zst0(p: &Packet, _: &mut Proto) {
+    zst_fire(0, p)
+}
+fn zst1(p: &Packet, _: &mut Proto) {
+    zst_fire(1, p)
+}
+fn zst2(p: &Packet, _: &mut Proto) {
+    zst_fire(2, p)
+}
+fn zst3(p: &Packet, _: &mut Proto) {
+    zst_fire(3, p)
 }
 
 #[derive(Default)]
@@ -173,6 +213,9 @@ struct Node {
     proto: Proto,
     link: Rc<RefCell<LinkState>>,
     hlog: Rc<RefCell<HLog>>,
+    /// the packet handed to the link most recently (for "echo" relations between
+    /// what a node sends and what it receives next)
+    last_sent: RefCell<Option<Packet>>,
 }
 
 fn new_node(sim: &Sim, name: &'static str, own: u16) -> Node {
@@ -196,17 +239,27 @@ fn new_node(sim: &Sim, name: &'static str, own: u16) -> Node {
         proto: Protocol::new(own, link),
         link: st,
         hlog: Rc::new(RefCell::new(HLog::default())),
+        last_sent: RefCell::new(None),
     }
 }
 
 fn make_handler(sim: &Sim, name: &'static str, h: &MHandler, hlog: &Rc<RefCell<HLog>>) -> Box<dyn FnMut(&Packet, &mut Proto)> {
+    if name == "n" {
+        match h.zst {
+            Some(0) => return Box::new(zst0),
+            Some(1) => return Box::new(zst1),
+            Some(2) => return Box::new(zst2),
+            Some(3) => return Box::new(zst3),
+            _ => {}
+        }
+    }
     let sim = sim.clone();
     let hlog = hlog.clone();
     let token = h.token;
     let beh = h.beh.clone();
     Box::new(move |p: &Packet, proto: &mut Proto| {
         let _g = crate::alloc::SimDomain::enter();
-        sim.event(EV_HANDLER, token as u64, hash_packet(p), || format!("{}.handler#{} called with {}", name, token, show_packet(p)));
+        sim.event_unordered(EV_HANDLER, token as u64, hash_packet(p), || format!("{}.handler#{} called with {}", name, token, show_packet(p)));
         let seq = sim.steps();
         hlog.borrow_mut().fired.push((token, p.clone(), seq));
         if let Beh::Sender(out) = &beh {
@@ -259,10 +312,14 @@ struct Delivery {
 }
 
 fn take_logs(n: &Node) -> Delivery {
-    Delivery {
+    let d = Delivery {
         fired: std::mem::take(&mut n.hlog.borrow_mut().fired),
         sent: std::mem::take(&mut n.link.borrow_mut().sent),
+    };
+    if let Some((p, _, _)) = d.sent.last() {
+        *n.last_sent.borrow_mut() = Some(p.clone());
     }
+    d
 }
 
 /// Compares what fired with what the model expects; on a discrepancy asks the
@@ -389,6 +446,15 @@ fn twin_reveal(t: &mut Node, own: u16) -> (BTreeSet<u32>, BTreeSet<u32>) {
     (o, f)
 }
 
+/// Live handlers as (token, id) in registration order. Every choice and every iteration
+/// goes by token, never by id: ids are the implementation's business (they may even be
+/// derived from addresses) and must not influence the run or its event log.
+fn live_by_token(model: &Model) -> Vec<(u32, u32)> {
+    let mut v: Vec<(u32, u32)> = model.live.iter().map(|(id, h)| (h.token, *id)).collect();
+    v.sort();
+    v
+}
+
 fn expected_tokens(model: &Model, owned: bool) -> BTreeSet<u32> {
     model.live.values().filter(|h| owned || h.capture_all).map(|h| h.token).collect()
 }
@@ -447,7 +513,11 @@ fn gen_app_packet(sim: &Sim, addr: u16, tag: u32) -> Packet {
             return p;
         }
     }
-    let len = sim.pick(&[4usize, 0, 2, 9, 14, 30]);
+    let len = if sim.draw(400) == 399 {
+        sim.pick(&[28672usize, 28671, 28666, 4096])
+    } else {
+        sim.pick(&[4usize, 0, 2, 9, 14, 30])
+    };
     let mut data = fill_pattern(sim.pick(&[6u32, 3, 1]), tag, len);
     if len >= 2 {
         // keep clear of event codes so that it never decodes by accident
@@ -488,6 +558,8 @@ pub fn run(sim: &Sim, prop: &str, tier: Tier) -> Outcome {
     }
     let own = sim.pick(&[0x0101u16, 0xffff, 0x0000, 0x00ff, 0x8000]);
     let mut node = new_node(sim, "n", own);
+    ZCTX.with(|c| *c.borrow_mut() = Some((sim.clone(), node.hlog.clone())));
+    let mut zst_used = 0usize;
     let mut model = Model {
         own,
         live: BTreeMap::new(),
@@ -499,10 +571,24 @@ pub fn run(sim: &Sim, prop: &str, tier: Tier) -> Outcome {
         Tier::Quick => 24,
         Tier::Thorough => 80,
     };
-    let n_ops = 1 + if sim.chance(85) { sim.draw(max_ops.min(24)) } else { sim.draw(max_ops) };
+    // swarm: rarely a long history (state that only matters hundreds of operations later)
+    let long_history = sim.draw(150) == 149;
+    let n_ops = if long_history {
+        sim.probe("history_over_150_operations");
+        sim.pick(&[300u32, 700, 1500])
+    } else {
+        1 + if sim.chance(85) { sim.draw(max_ops.min(24)) } else { sim.draw(max_ops) }
+    };
     node.link.borrow_mut().send_err_pct = sim.pick(&[0u32, 0, 20]);
     // op mix: registry-heavy histories for C17, delivery-heavy for the others
-    let reg_weight = if prop == "C17" { sim.pick(&[60u32, 80, 40]) } else { sim.pick(&[30u32, 15, 50]) };
+    let reg_weight = if long_history {
+        // long histories keep their handlers for a long time
+        sim.pick(&[2u32, 5])
+    } else if prop == "C17" {
+        sim.pick(&[60u32, 80, 40])
+    } else {
+        sim.pick(&[30u32, 15, 50])
+    };
     let mut ops_log: Vec<String> = Vec::new();
     // C17 only: a twin node receives the same registry operations, each followed at once by
     // reveal deliveries. A handler that is live on the twin but silent here was lost to the
@@ -524,7 +610,7 @@ pub fn run(sim: &Sim, prop: &str, tier: Tier) -> Outcome {
         let capture_all = sim.chance(40);
         let token = model.next_token;
         model.next_token += 1;
-        let h = MHandler { token, capture_all, beh: Beh::Plain };
+        let h = MHandler { token, capture_all, beh: Beh::Plain, zst: None };
         let boxed = make_handler(sim, "n", &h, &node.hlog);
         if let Some(t) = twin.as_mut() {
             let b2 = make_handler(sim, "t", &h, &t.hlog);
@@ -566,7 +652,21 @@ pub fn run(sim: &Sim, prop: &str, tier: Tier) -> Outcome {
         } else if model.live.is_empty() && sim.chance(70) {
             0
         } else if sim.chance(reg_weight) {
-            sim.draw(2) // 0 add, 1 remove
+            if long_history {
+                // few removals: most handlers of a long history live through all of it
+                (sim.draw(10) >= 8) as u32
+            } else {
+                sim.draw(2) // 0 add, 1 remove
+            }
+        } else if sim.chance(6) {
+            4 // an exchange in the middle of the history (judged by C18, not here)
+        } else if long_history {
+            // delivery-heavy
+            if sim.draw(10) < 7 {
+                2
+            } else {
+                3
+            }
         } else {
             2 + sim.draw(2) // 2 tick, 3 send
         };
@@ -574,9 +674,24 @@ pub fn run(sim: &Sim, prop: &str, tier: Tier) -> Outcome {
             // ------------------------------------------------------ add
             0 => {
                 let capture_all = sim.flag();
-                let token = model.next_token;
-                model.next_token += 1;
-                let beh = if sim.chance(25) {
+                // some handlers are plain function items: zero-sized, no captured state
+                let zst = if zst_used < 4 && sim.chance(12) {
+                    zst_used += 1;
+                    sim.probe("zero_sized_handler_registered");
+                    Some(zst_used - 1)
+                } else {
+                    None
+                };
+                let token = match zst {
+                    Some(k) => ZST_TOKEN_BASE + k as u32,
+                    None => {
+                        model.next_token += 1;
+                        model.next_token - 1
+                    }
+                };
+                let beh = if zst.is_some() {
+                    Beh::Plain
+                } else if sim.chance(25) {
                     let dest = other_addr(sim, own);
                     let dest = if dest == own { dest ^ 1 } else { dest };
                     Beh::Sender(Packet {
@@ -587,7 +702,7 @@ pub fn run(sim: &Sim, prop: &str, tier: Tier) -> Outcome {
                 } else {
                     Beh::Plain
                 };
-                let h = MHandler { token, capture_all, beh };
+                let h = MHandler { token, capture_all, beh, zst };
                 let boxed = make_handler(sim, "n", &h, &node.hlog);
                 if let Some(t) = twin.as_mut() {
                     let b2 = make_handler(sim, "t", &h, &t.hlog);
@@ -638,13 +753,13 @@ pub fn run(sim: &Sim, prop: &str, tier: Tier) -> Outcome {
                 let choice = sim.draw(10);
                 let id = if choice < 6 && !model.live.is_empty() {
                     // a live id (any position in the table)
-                    *model.live.keys().nth(sim.draw(model.live.len() as u32) as usize).unwrap()
+                    live_by_token(&model)[sim.draw(model.live.len() as u32) as usize].1
                 } else if choice < 8 && !model.removed_ids.is_empty() {
                     model.removed_ids[sim.draw(model.removed_ids.len() as u32) as usize]
                 } else {
                     // never-issued ids, including ones that alias a live id if an id is
                     // truncated, masked or taken modulo something on the way
-                    let some_live = model.live.keys().next_back().copied().unwrap_or(0);
+                    let some_live = live_by_token(&model).last().map(|x| x.1).unwrap_or(0);
                     sim.pick(&[
                         model.live.len() as u32,
                         1000,
@@ -665,7 +780,14 @@ pub fn run(sim: &Sim, prop: &str, tier: Tier) -> Outcome {
                     twin_foreign = f;
                 }
                 let r = sut(|| node.proto.remove_packet_handler(id));
-                sim.event(EV_OP, 2, id as u64, || format!("remove_packet_handler({}) -> {:?}   (model: {})", id, r, if was_live { "registered" } else { "not registered" }));
+                let id_class: u64 = match model.live.get(&id) {
+                    Some(h) => 0x1000 + h.token as u64,
+                    None => match model.removed_ids.iter().position(|x| *x == id) {
+                        Some(k) => 0x2000 + k as u64,
+                        None => 0x3000 + choice as u64,
+                    },
+                };
+                sim.event(EV_OP, 2, id_class, || format!("remove_packet_handler({}) -> {:?}   (model: {})", id, r, if was_live { "registered" } else { "not registered" }));
                 ops_log.push(format!("rm{}", id));
                 match (r, was_live) {
                     (Ok(Ok(())), true) => {
@@ -717,6 +839,45 @@ pub fn run(sim: &Sim, prop: &str, tier: Tier) -> Outcome {
                     return o;
                 }
                 ops_log.push("send".to_string());
+            }
+            // ------------------------------------------------- exchange
+            4 => {
+                let kind = sim.draw(N_KINDS);
+                let n_in = sim.draw(5);
+                for _ in 0..n_in {
+                    let to = match sim.draw(3) {
+                        0 => own,
+                        1 => BROADCAST_ADDRESS,
+                        _ => other_addr(sim, own),
+                    };
+                    let k = if sim.flag() { kind } else { sim.draw(N_KINDS) };
+                    if let Ok(mut p) = gen_event(sim, k, to, SizeCfg { large_pct: 0, huge_pct: 0 }).to_packet(0) {
+                        sanitize(&mut p);
+                        if kind == 4 && p.data.len() < 6 {
+                            p.data.resize(6, 0xee);
+                        }
+                        node.link.borrow_mut().rx.push_back(RxItem::Pkt(p));
+                    }
+                }
+                let request = gen_app_packet(sim, other_addr(sim, own), 0x800 + i);
+                let capture = sim.flag();
+                let multi_form = sim.flag();
+                let _ = with_kind!(kind, T => {
+                    if multi_form {
+                        sut(|| node.proto.exchange_packets::<_, T>(request.clone(), capture, || {}).map(|_| ()))
+                    } else {
+                        sut(|| node.proto.exchange_packet::<_, T>(request.clone(), capture, || {}).map(|_| ()))
+                    }
+                });
+                node.link.borrow_mut().rx.clear();
+                let d = take_logs(&node);
+                for (t, _, _) in &d.fired {
+                    if model.dead.contains(t) {
+                        return fail(prop, "C17.remove", format!("handler #{} was removed but was invoked during an exchange", t), "removed-handler-invoked".to_string());
+                    }
+                }
+                sim.probe("exchange_inside_history");
+                ops_log.push("exchange".to_string());
             }
             // --------------------------------------------------- reveal
             _ => {
@@ -795,9 +956,9 @@ pub fn run(sim: &Sim, prop: &str, tier: Tier) -> Outcome {
                 // fired at an earlier reveal and no longer does was silenced by an operation on
                 // another handler (history-dependent: C17). One that never fired at all is
                 // attributed by asking the registry itself.
-                for (id, h) in model.live.iter() {
+                for (_tok, id) in live_by_token(&model) {
+                    let h = &model.live[&id];
                     if !fired_own.contains(&h.token) {
-                        let id = *id;
                         if prop == "C17" && seen_own.contains(&h.token) {
                             return fail(
                                 prop,
@@ -894,7 +1055,7 @@ pub fn run(sim: &Sim, prop: &str, tier: Tier) -> Outcome {
 
     // ---- end of history: the registry agrees with the model about every id ever seen
     if prop == "C17" {
-        let live_ids: Vec<u32> = model.live.keys().copied().collect();
+        let live_ids: Vec<u32> = live_by_token(&model).iter().map(|x| x.1).collect();
         let dead_ids: Vec<u32> = model.removed_ids.iter().copied().filter(|id| !model.live.contains_key(id)).collect();
         for id in dead_ids {
             match sut(|| node.proto.remove_packet_handler(id)) {
@@ -938,7 +1099,13 @@ pub fn run(sim: &Sim, prop: &str, tier: Tier) -> Outcome {
 /// A tick against a drawn link result, judged by C15's clauses.
 fn op_tick(sim: &Sim, prop: &str, node: &mut Node, model: &Model, forced: Option<RxItem>) -> Option<Outcome> {
     let own = model.own;
+    let echo = node.last_sent.borrow().clone();
     let item = forced.unwrap_or_else(|| match sim.draw(10) {
+        0 if echo.is_some() && sim.chance(40) => {
+            // the packet this node sent last comes back (a bus echoes, a peer mirrors)
+            sim.probe("received_copy_of_last_sent_packet");
+            RxItem::Pkt(echo.clone().unwrap())
+        }
         0..=5 => {
             let addr = match sim.draw(4) {
                 0 => own,
@@ -1084,7 +1251,7 @@ fn op_send(sim: &Sim, prop: &str, node: &mut Node, model: &Model, forced: Option
             _ => other_addr(sim, own),
         };
         let p = gen_app_packet(sim, addr, 0x500 + sim.draw(64));
-        let outcome = if sim.chance(25) { Some(sim.draw(N_ERR_KINDS)) } else { None };
+        let outcome = if sim.chance(25) { Some(sim.draw(N_SEND_ERR_KINDS)) } else { None };
         (p, outcome)
     });
     // the outcome applies to the transmission of `p` itself; handlers that transmit
@@ -1233,7 +1400,7 @@ fn run_exchange(sim: &Sim, prop: &str, tier: Tier) -> Outcome {
         } else {
             Beh::Plain
         };
-        let h = MHandler { token: t + 1, capture_all, beh };
+        let h = MHandler { token: t + 1, capture_all, beh, zst: None };
         for n in [&mut x, &mut y] {
             let b = make_handler(sim, n.name, &h, &n.hlog);
             if !matches!(sut(|| n.proto.add_packet_handler(b, capture_all)), Ok(Ok(_))) {
@@ -1256,13 +1423,28 @@ fn run_exchange(sim: &Sim, prop: &str, tier: Tier) -> Outcome {
             1 => BROADCAST_ADDRESS,
             _ => other_addr(sim, own),
         };
-        let request = gen_app_packet(sim, req_addr, 0x600 + sim.draw(64));
+        let request = if sim.chance(30) {
+            // a request that is itself an event of the requested kind (its echo would match)
+            match gen_event(sim, kind, req_addr, SizeCfg { large_pct: 0, huge_pct: 0 }).to_packet(0) {
+                Ok(mut p) => {
+                    p.device_address = req_addr;
+                    sanitize(&mut p);
+                    if kind == 4 && p.data.len() < 6 {
+                        p.data.resize(6, 0xee);
+                    }
+                    p
+                }
+                Err(e) => return Outcome::Foreign("C03.encode", e),
+            }
+        } else {
+            gen_app_packet(sim, req_addr, 0x600 + sim.draw(64))
+        };
         let send_fails = if has_loop_senders(&hs, req_addr, own) {
             // handlers transmit before the request itself: the outcome of "the next send" cannot be pinned
             None
         } else if req_addr != own || own == BROADCAST_ADDRESS {
             if sim.chance(15) {
-                Some(sim.draw(N_ERR_KINDS))
+                Some(sim.draw(N_SEND_ERR_KINDS))
             } else {
                 None
             }
@@ -1321,6 +1503,17 @@ fn run_exchange(sim: &Sim, prop: &str, tier: Tier) -> Outcome {
                 RxItem::Pkt(p)
             };
             queue.push(item);
+        }
+        if sim.chance(12) {
+            // the request itself comes back (echo): it is a received packet like any other
+            let mut echo = request.clone();
+            if kind == 4 && echo.data.len() < 6 {
+                echo.data.resize(6, 0xee);
+            }
+            sanitize(&mut echo);
+            let at = sim.draw(queue.len() as u32 + 1) as usize;
+            queue.insert(at, RxItem::Pkt(echo));
+            sim.probe("exchange_queue_contains_echo_of_request");
         }
         if sim.chance(20) {
             queue.push(RxItem::Err(sim.draw(N_ERR_KINDS)));
